@@ -15,6 +15,7 @@ type Plan struct {
 	Clients   [][]Call       `json:"clients"`
 	Churn     int            `json:"churn,omitempty"`        // C12: extra calls executed before handed-out strings are re-read
 	Cold      bool           `json:"cold_process,omitempty"` // run as the first thing of a fresh OS process: every lazily filled package-level table of the library is cold
+	Young     bool           `json:"young_reference,omitempty"` // the references are cross-checked against a brand-new oracle process that sees the calls in reverse order
 	FreshAt   int            `json:"fresh_at,omitempty"`     // 1-based index of the call of client 0 whose reference is recomputed in a fresh OS process of its own (0: none)
 	Cfg       simsync.Config `json:"cfg"`
 }
@@ -291,6 +292,9 @@ func GenC08(r *detsim.Rand, tier string) *Plan {
 
 // freshSample: in the thorough tier a sample of descriptors is additionally evaluated in a fresh OS process each.
 func freshSample(r *detsim.Rand, p *Plan, tier string) {
+	if p.NCalls() <= 120 && r.Chance(1, 4) {
+		p.Young = true
+	}
 	if p.NCalls() <= 200 && r.Chance(1, 12) {
 		p.Cold = true
 	}
